@@ -146,7 +146,8 @@ def match_finding(findings, prop, clause, task, result):
     for f in findings:
         if f.get("status") != "open" or f.get("property") != prop:
             continue
-        if f.get("clause") not in (None, clause):
+        fc = f.get("clause")
+        if fc is not None and (clause not in fc if isinstance(fc, list) else fc != clause):
             continue
         sig = f.get("signature", {})
         facts = dict(task.get("facts", {}))
